@@ -54,6 +54,7 @@ pub fn packet_faults(start: i32, len: i32, classes: u16, fates: Vec<Fate>, tick_
         fates,
         links: Vec::new(),
         tick_alts,
+        link_rounds: Vec::new(),
     }
 }
 
